@@ -127,6 +127,24 @@ def run(ctx):
         nlit += 2
     documents.append('import "\\é"\nQLabel { }\n')
     ctx.dist("doc-literal-spelling", nlit + 1)
+    # strings consumed by the value-type constructors (colours, brushes, key sequences, pixmaps, icons): multi-byte characters at every offset
+    # of every accepted length, near-miss keywords
+    specials = []
+    for n in (3, 4, 6, 8):
+        for pos in range(n):
+            for ch in "é٠あ😀":
+                for width in (1, 2):
+                    body = ["a"] * n
+                    body[pos:pos + width] = [ch]
+                    specials.append("#" + "".join(body))
+    specials += ["#", "", "é", "#é", "réd", "red\u0301", "transparenté", "#12345678é", "rgb(1,2,3)", "#٠٠٠", "ｒed", "#aaa\u0000", "\u0000"]
+    if ctx.tier != "thorough":
+        specials = rng.sample(specials, 60) + specials[-13:]
+    for b in specials:
+        documents.append('import qmluic.QtWidgets\nQColorDialog { currentColor: "%s" }\n' % b)
+        documents.append('import qmluic.QtWidgets\nQWidget { palette.window: "%s"; palette.active.text: "%s" }\n' % (b, b))
+        documents.append('import qmluic.QtWidgets\nQWidget { windowIcon.name: "%s"; styleSheet: "%s"; QAction { shortcut: "%s" } QLabel { pixmap: "%s" } }\n' % (b, b, b, b))
+    ctx.dist("doc-value-type-strings", 3 * len(specials))
     if ctx.replay and isinstance(ctx.replay.get("case"), str):
         documents = [ctx.replay["case"]]
     ctx.dist("doc-corpus", len(base)); ctx.dist("doc-mutant", len(base) * nmut); ctx.dist("doc-soup", 400 if ctx.tier == "thorough" else 60)
